@@ -59,7 +59,7 @@ def model_check(ctx, sd):
 
 def run(ctx):
     sd = ctx.spec_dir("tsmread")
-    if not ctx.replay:
+    if not ctx.replay and not os.environ.get("VERIF_SKIP_MC"):   # (VERIF_SKIP_MC: mutation self-tests only)
         model_check(ctx, sd)
 
     # ---- behaviours -> real shard
@@ -111,12 +111,14 @@ def run_types(ctx, rp):
         inv = ["TypeOK", "C02_OneTypePerField", "C02_ConflictRejectedOnlyThatPoint", "C02_PartialWriteReported"]
         c = {"Fields": ['"f"', '"g"'], "Types": ['"float"', '"integer"'], "Series": ['"s1"'], "MaxBatch": 2,
              "MaxWrites": 2, "MaxT": 0, "MaxV": 0, "MaxDrops": 1, "MaxReopens": 1}
-        ctx.write_cfg(sd, "MC1.cfg", "Spec", c, inv, "Bounded")
-        ctx.tlc_check(sd, "FieldTypes", "MC1.cfg", workers=8, timeout=1200, coverage=not ctx.quick())
-        c2 = dict(c, Series=['"s1"', '"s2"'], MaxBatch=1, MaxWrites=2, MaxDrops=2)
-        ctx.write_cfg(sd, "MC2.cfg", "Spec", c2, inv, "Bounded")
-        ctx.tlc_check(sd, "FieldTypes", "MC2.cfg", workers=8, timeout=1200)
-        if not ctx.quick():
+        skip = bool(os.environ.get("VERIF_SKIP_MC"))
+        if not skip:
+            ctx.write_cfg(sd, "MC1.cfg", "Spec", c, inv, "Bounded")
+            ctx.tlc_check(sd, "FieldTypes", "MC1.cfg", workers=8, timeout=1200, coverage=not ctx.quick())
+            c2 = dict(c, Series=['"s1"', '"s2"'], MaxBatch=1, MaxWrites=2, MaxDrops=2)
+            ctx.write_cfg(sd, "MC2.cfg", "Spec", c2, inv, "Bounded")
+            ctx.tlc_check(sd, "FieldTypes", "MC2.cfg", workers=8, timeout=1200)
+        if not ctx.quick() and not skip:
             c3 = dict(c, Series=['"s1"', '"s2"'], Types=['"float"', '"integer"', '"string"'], MaxBatch=2, MaxWrites=2, MaxDrops=1)
             ctx.write_cfg(sd, "MC3.cfg", "Spec", c3, inv, "Bounded")
             ctx.tlc_check(sd, "FieldTypes", "MC3.cfg", workers=8, timeout=2400)
